@@ -596,6 +596,55 @@ theorem C06_select_random_empty_exact (sp : Space) (s : State) (draws : List Nat
       · rw [← hemp]; simp [Nat.mod_lt _ hpos]
       · simp [choice, hie, draw, Nat.mod_lt _ hpos]
 
+theorem removeEach_listed {sp : Space} (hsp : SpaceOK sp) (c : Cid) (l : List Aid) :
+    ∀ {s : State}, Reachable sp s → s.occ c = l →
+      (removeEach sp s l).2 = .ok ∧ (removeEach sp s l).1.occ c = [] ∧
+      (∀ c', c' ≠ c → (removeEach sp s l).1.occ c' = s.occ c') ∧
+      (∀ b, b ∈ (removeEach sp s l).1.registry ↔ b ∈ s.registry ∧ b ∉ l) ∧
+      Reachable sp (removeEach sp s l).1 := by
+  induction l with
+  | nil =>
+    intro s h hl
+    exact ⟨rfl, hl, fun _ _ => rfl, fun b => by simp [removeEach], h⟩
+  | cons a t ih =>
+    intro s h hl
+    have hi := reachable_inv hsp h
+    have hm : a ∈ s.occ c := by rw [hl]; simp
+    obtain ⟨hok, hocc, hreg⟩ := remove_listed hi hm
+    have hr' : Reachable sp (step sp s (.remove a)).1 := h.step (.remove a)
+    have hpair : step sp s (.remove a) = ((step sp s (.remove a)).1, .ok) := by
+      rw [← hok]
+    have hunf : removeEach sp s (a :: t) = removeEach sp (step sp s (.remove a)).1 t := by
+      rw [removeEach, hpair]
+    have hl' : (step sp s (.remove a)).1.occ c = t := by
+      rw [hocc c, hl]; simp
+    obtain ⟨h1, h2, h3, h4, h5⟩ := ih hr' hl'
+    rw [hunf]
+    refine ⟨h1, h2, fun c' hc' => ?_, fun b => ?_, h5⟩
+    · rw [h3 c' hc', hocc c']
+      apply List.erase_of_not_mem
+      intro hmem
+      have e1 := hi.mem_cell a c' hmem
+      have e2 := hi.mem_cell a c hm
+      rw [e1] at e2
+      exact hc' (by simpa using e2)
+    · rw [h4 b, hreg, hi.reg_nodup.mem_erase_iff]
+      simp only [List.mem_cons, not_or]
+      constructor
+      · rintro ⟨⟨h6, h7⟩, h8⟩; exact ⟨h7, h6, h8⟩
+      · rintro ⟨h7, h6, h8⟩; exact ⟨⟨h6, h7⟩, h8⟩
+
+/-- Emptying a cell by `for a in cell.agents: a.remove()`, after any history, for any cell and whatever agents (mobile,
+    fixed, still in the model or not) it lists: every `remove()` returns, the cell ends up empty, no other cell's list
+    changes, and exactly the agents the cell listed have left the model's registry.  (That `cell.agents` is a copy — so the
+    loop sees every agent although they leave the cell's own list meanwhile — is the tie's `agentscopy` / `clearcell` lines.) -/
+theorem C06_clear_cell {sp : Space} (hsp : SpaceOK sp) {s : State} (h : Reachable sp s) (c : Cid) :
+    (clearCell sp s c).2 = .ok ∧ (clearCell sp s c).1.occ c = [] ∧
+    (∀ c', c' ≠ c → (clearCell sp s c).1.occ c' = s.occ c') ∧
+    (∀ b, b ∈ (clearCell sp s c).1.registry ↔ b ∈ s.registry ∧ b ∉ s.occ c) ∧
+    Reachable sp (clearCell sp s c).1 :=
+  removeEach_listed hsp c (s.occ c) h rfl
+
 /-! ### non-vacuity -/
 
 -- a 2×2 Moore torus with capacity 1: place, rejected move into a full cell (S11 witness: nothing changes),
@@ -666,6 +715,9 @@ example : (run z (init z) zops).occ [0, 0] = [0, 1, 2] ∧ isFull z (run z (init
 example : (step z (run z (init z) zops) (.setCell 1 (some [0, 1]))).2 = .err .fixed ∧
     (step z (run z (init z) (zops ++ [.remove 1])) (.setCell 1 (some [0, 1]))).2 = .err .fixed ∧
     (run z (init z) (zops ++ [.remove 1])).occ [0, 0] = [0, 2] := by decide
+-- emptying the cell that lists a CellAgent, a FixedAgent and another CellAgent: all three leave the cell and the model
+example : (clearCell z (run z (init z) zops) [0, 0]).2 = .ok ∧ (clearCell z (run z (init z) zops) [0, 0]).1.occ [0, 0] = [] ∧
+    (run z (init z) zops).registry = [0, 1, 2] ∧ (clearCell z (run z (init z) zops) [0, 0]).1.registry = [] := by decide
 -- rejection sampling: the draws 0, 3, 1 name (0,0), (1,1) — both occupied — and (0,1), which is returned; the list strategy
 -- returns the `d % 2`-th of the two empty cells; with every cell occupied it raises IndexError without a draw
 example : drawn sp0.cells [0, 3, 1] = [[0, 0], [1, 1], [0, 1]] ∧ (step sp0 s0 (.randEmpty [0, 3, 1])).2 = .okCell [0, 1] ∧
